@@ -5,6 +5,8 @@ package verifharness_test
 import (
 	"fmt"
 	"math/rand/v2"
+	"sort"
+	"strconv"
 	"strings"
 	"sync/atomic"
 	"testing"
@@ -246,8 +248,22 @@ func c01CheckList(r *Run, l *Local, list []*uPat, public bool, extraProbes []*uP
 				tol = true
 			}
 		}
-		mw, err = cors.NewMiddleware(cors.Config{Origins: append([]string(nil), strs...),
-			ExtraConfig: cors.ExtraConfig{DangerouslyTolerateSubdomainsOfPublicSuffixes: tol}})
+		if len(strs) > 0 && len(strs)%3 == 1 {
+			// the configuration in force was installed by Reconfigure with a Config object that had been used before and
+			// whose Origins slice was overwritten in place in the meantime (lesson of seeded change C01-o)
+			cfg := cors.Config{Origins: make([]string, len(strs)), ExtraConfig: cors.ExtraConfig{DangerouslyTolerateSubdomainsOfPublicSuffixes: tol}}
+			for i := range cfg.Origins {
+				cfg.Origins[i] = "https://decoy-" + strconv.Itoa(i) + ".invalid"
+			}
+			mw, err = cors.NewMiddleware(cfg)
+			if err == nil {
+				copy(cfg.Origins, strs)
+				err = mw.Reconfigure(&cfg)
+			}
+		} else {
+			mw, err = cors.NewMiddleware(cors.Config{Origins: append([]string(nil), strs...),
+				ExtraConfig: cors.ExtraConfig{DangerouslyTolerateSubdomainsOfPublicSuffixes: tol}})
+		}
 		if err != nil {
 			r.Violate("valid-list-rejected", "S1-vs-NewMiddleware", fmt.Sprintf("patterns %q rejected: %v", strs, err), c01Case{strs, "", true})
 			mw = nil
@@ -343,7 +359,7 @@ func c01CheckList(r *Run, l *Local, list []*uPat, public bool, extraProbes []*uP
 func TestVerif_C01(t *testing.T) {
 	r := newRun(t, "C01")
 	r.Rule("pattern lists over a universe built to collide in the radix tree (hosts sharing non-label-boundary suffixes, IPv4/IPv6, trailing dot, 253-byte hosts; 4 schemes; ports none/1/8080/65535/*; exact and *.): " +
-		"all ordered lists up to a bound (exhaustive) + PRNG lists of length 4-40 with permutations and duplications + PRNG scheme families (2-8 patterns on one or two hosts under 20 schemes that are prefixes / extensions of one another or contain `+ - .` and digits) + PRNG sibling-heavy families (9-40 hosts differing in one byte in front of a common suffix, followed / interleaved / shuffled with patterns that split that node) + PRNG lists with `*` at every position (public API); probes = for every member the denoted origins and every near-miss class of the quantifier. " +
+		"all ordered lists up to a bound (exhaustive) + PRNG lists of length 4-40 with permutations and duplications + PRNG port families (one host with 2-129 discrete ports in PRNG / descending / rotated order) + PRNG scheme families (2-8 patterns on one or two hosts under 20 schemes that are prefixes / extensions of one another or contain `+ - .` and digits) + PRNG sibling-heavy families (9-40 hosts differing in one byte in front of a common suffix, followed / interleaved / shuffled with patterns that split that node) + PRNG lists with `*` at every position (public API); probes = for every member the denoted origins and every near-miss class of the quantifier. " +
 		"evaluation = one (list, origin) verdict compared with the denotation oracle; non-trivial = verdicts on origins sharing scheme and a host suffix byte with a listed pattern, counted per distinct (list, origin) for enumerated lists (distinct by construction) and once per distinct list (by hash) for sampled lists")
 	r.Assume("oracle S1 (denotes) transcribes the statement of C01; universe patterns are valid by construction (their acceptance is C13's business)")
 
@@ -557,6 +573,49 @@ func TestVerif_C01(t *testing.T) {
 			l.NontrivialKey(strs...)
 			l.counters["scheme_family_lists"]++
 		}
+	})
+	// --- port families: ONE host and scheme listed with n discrete ports in PRNG order, n around every threshold a
+	// port list could switch representation at (lesson of seeded change C15-o: a list of exactly 8 ports kept unsorted
+	// but binary-searched)
+	portCounts := []int{2, 3, 4, 5, 6, 7, 8, 9, 10, 15, 16, 17, 31, 32, 33, 63, 64, 65, 127, 128, 129}
+	r.Parallel(len(portCounts)*pick(r, 6, 60), func(l *Local) {
+		rng := l.Rng
+		n := portCounts[l.Batch%len(portCounts)]
+		host := choose(rng, []string{"localhost", "example.com", "a.com", "127.0.0.1"})
+		scheme := "http"
+		subs := rng.IntN(4) == 0 && host != "127.0.0.1"
+		seen := map[int]bool{}
+		var list []*uPat
+		for len(list) < n {
+			p := 1 + rng.IntN(65535)
+			if rng.IntN(3) == 0 {
+				p = choose(rng, []int{1, 2, 79, 81, 442, 444, 3000, 8080, 9090, 65534, 65535})
+			}
+			if seen[p] || p == 80 {
+				continue
+			}
+			seen[p] = true
+			up, err := newUPat(PatSpec{Scheme: scheme, Subs: subs, Host: host, Port: p})
+			if err != nil {
+				l.counters["port_family_pattern_rejected"]++
+				continue
+			}
+			list = append(list, up)
+		}
+		switch l.Batch / len(portCounts) % 3 {
+		case 1: // descending
+			sort.Slice(list, func(i, j int) bool { return list[i].spec.Port > list[j].spec.Port })
+		case 2: // ascending except that the smallest comes last
+			sort.Slice(list, func(i, j int) bool { return list[i].spec.Port < list[j].spec.Port })
+			list = append(list[1:], list[0])
+		}
+		c01CheckList(r, l, list, true, nil, false)
+		strs := make([]string, len(list))
+		for j := range list {
+			strs[j] = list[j].str
+		}
+		l.NontrivialKey(strs...)
+		l.counters["port_family_lists"]++
 	})
 	// --- lists that contain `*` (public API only: the tree never sees `*`): every origin is allowed,
 	// wherever `*` stands in the list and whatever else is listed
